@@ -68,7 +68,7 @@ func symbolCommands(sym string, i int) [][]string {
 	case "t2":
 		return [][]string{{"MULTI"}, {"SET", "k1", "t" + p + "a"}, {"SET", "k2", "t" + p + "b"}, {"EXEC"}}
 	case "t3":
-		return [][]string{{"multi"}, {"SET", "k1", "u" + p + "a"}, {"DEL", "k2"}, {"SET", "k2", "u" + p + "c"}, {"exec"}}
+		return [][]string{{"multi"}, {"SET", "k1", "u" + p + "a"}, {"LPUSH", "l1", "u" + p + "b"}, {"SET", "k2", "u" + p + "c"}, {"exec"}}
 	case "ts":
 		return [][]string{{"MULTI"}, {"SELECT", "1"}, {"SET", "k1", "s" + p}, {"EXEC"}}
 	case "p":
